@@ -172,6 +172,8 @@ def oracle(ctx, s, ds, qs, case):
                 ph1 = obs[name][k] - stat[k][None, :]
                 ph2 = obs2[name][k] - stat2[k][None, :]
                 fin = np.isfinite(ph1) & np.isfinite(ph2)
+                if not np.any(fin):
+                    continue
                 if np.max(np.abs(ph1 - ph2)[fin]) > 2e-8 * scale:
                     raise PropertyViolation("C05/metamorphic/%s" % s["metamorphic"],
                                             "phonon part of c%d%d changes when the static table is %s" % (k[0], k[1], s["metamorphic"]), case)
